@@ -15,6 +15,8 @@
             positional selection); the parser state has the three reviewed tables; the key of an unresolved
             reference is unresolved_names.len() | marker bit, pushed at one site
   CYCLECHECK ... a child that is already done is not searched again (the search visits records, not paths)   (found F20)
+  CYCLECHECK ... the two tables may be one table of a three-state enum (new / on the stack / done): roles read from the code,
+             same obligations
   REJECT   ... required attributes are exactly the specification's (decimal scale is optional, default 0: F21); only
            record / enum / fixed define a name (F26)
   FORMS    the `type` of a schema object can hold a reference, not only a built-in type name        (F28, known finding)
